@@ -89,19 +89,28 @@ fn atanh(z: Complex<f64>) -> Complex<f64> {
     }
 }
 
+/// asinh of a real number: std's formula forms 2|x| and overflows above f64::MAX / 2, where asinh(x) = ln|x| + ln 2
+fn asinh_real(x: f64) -> f64 {
+    if x.abs() > 1e150 {
+        (x.abs().ln() + std::f64::consts::LN_2).copysign(x)
+    } else {
+        x.asinh()
+    }
+}
+
 /// acos(z) by Kahan's formulas on sqrt(1 - z) and sqrt(1 + z): num_complex's -i ln(z + i sqrt(1 - z^2)) cancels
 /// next to z = 1 (acos(0.999999993) is off by 1.7e-9)
 fn acos(z: Complex<f64>) -> Complex<f64> {
     let a = (1.0 - z).sqrt();
     let b = (1.0 + z).sqrt();
-    Complex::new(2.0 * a.re.atan2(b.re), (b.conj() * a).im.asinh())
+    Complex::new(2.0 * a.re.atan2(b.re), asinh_real((b.conj() * a).im))
 }
 
 /// acosh(z) likewise on sqrt(z - 1) and sqrt(z + 1) (acosh(1.00000000000001) was off by 1.2e-9)
 fn acosh(z: Complex<f64>) -> Complex<f64> {
     let a = (z - 1.0).sqrt();
     let b = (z + 1.0).sqrt();
-    Complex::new((a.conj() * b).re.asinh(), 2.0 * a.im.atan2(b.re))
+    Complex::new(asinh_real((a.conj() * b).re), 2.0 * a.im.atan2(b.re))
 }
 
 pub fn eval(expr: Node) -> Result<Complex<f64>, Box<dyn error::Error>> {
